@@ -1,6 +1,6 @@
 (* Extraction of the C07 frame model (ExtrOcamlBasic only; numbers stay Coq's positive/Z datatypes). *)
 From Coq Require Extraction ExtrOcamlBasic.
-From Verif Require Import Frame.FrameModel Frame.SlotModel.
+From Verif Require Import Frame.FrameModel Frame.FrameMachine Frame.FrameExec Frame.SlotModel Frame.SlotFull.
 Extraction Blacklist List String Int.
-Extraction "frame.ml" FrameModel.cc_init FrameModel.min_dynamic_alignment FrameModel.finalize
-  FrameModel.prolog FrameModel.epilog FrameModel.saved_regs SlotModel.alloc_offsets SlotModel.alloc_all.
+Extraction "frame.ml" FrameModel.compiler_cc FrameModel.cc_init FrameModel.min_dynamic_alignment FrameModel.finalize
+  FrameModel.prolog FrameModel.epilog FrameModel.saved_regs SlotModel.alloc_offsets SlotModel.alloc_all SlotFull.order_ok SlotFull.placed_ok SlotFull.alloc_frame SlotFull.to_sslot SlotFull.slot_weight FrameExec.exec_frame.
